@@ -115,6 +115,55 @@ struct JobCtl {
     running: AtomicUsize,
 }
 
+/// Free-running bursts: no thread is held at a probe point.  Per round, k <= max long-lived jobs are handed
+/// to the pool back to back; all k must be running shortly afterwards (nobody has to wait for another job
+/// to finish); then all are released and the pool settles before the next round.
+fn run_storm(initial: usize, max: usize, k: usize, rounds: usize) -> Sx {
+    verif_hooks::set_probe(None);
+    let mut pool = verif_hooks::Pool::new(initial, max);
+    let mut verdict = sx::list(vec![sx::atom("storm"), sx::atom("ok")]);
+    for round in 0..rounds {
+        let running = Arc::new(AtomicUsize::new(0));
+        let finished = Arc::new(AtomicUsize::new(0));
+        let release = Arc::new((Mutex::new(false), Condvar::new()));
+        for _ in 0..k {
+            let running = running.clone();
+            let finished = finished.clone();
+            let release = release.clone();
+            pool.execute(move || {
+                running.fetch_add(1, Ordering::SeqCst);
+                let (m, cv) = &*release;
+                let mut go = m.lock().unwrap();
+                while !*go {
+                    go = cv.wait(go).unwrap();
+                }
+                drop(go);
+                finished.fetch_add(1, Ordering::SeqCst);
+            });
+        }
+        let deadline = Instant::now() + Duration::from_millis(1500);
+        while running.load(Ordering::SeqCst) < k && Instant::now() < deadline {
+            thread::sleep(Duration::from_micros(200));
+        }
+        let r = running.load(Ordering::SeqCst);
+        {
+            let (m, cv) = &*release;
+            *m.lock().unwrap() = true;
+            cv.notify_all();
+        }
+        let deadline = Instant::now() + Duration::from_millis(3000);
+        while (finished.load(Ordering::SeqCst) < k || pool.num_busy() > 0) && Instant::now() < deadline {
+            thread::sleep(Duration::from_micros(200));
+        }
+        if r < k {
+            verdict = sx::list(vec![sx::atom("storm"), sx::atom("stranded"), sx::nat(round), sx::nat(r), sx::nat(k)]);
+            break;
+        }
+    }
+    drop(pool);
+    verdict
+}
+
 fn run_schedule(initial: usize, max: usize, steps: &[Sx]) -> Sx {
     let ctl = Arc::new(Ctl { st: Mutex::new(CtlState::default()), cv: Condvar::new() });
     {
@@ -495,6 +544,31 @@ impl Suite for PoolSuite {
                 cases.push(Case { input: mk_case(initial, max, steps), tags: vec!["burst".into(), format!("cfg:{}x{}", initial, max)] });
             }
         }
+        // k arrivals are queued before any idle worker has picked one up: every one of them needs a wake-up
+        for (initial, max) in [(2usize, 2usize), (3, 3), (3, 4), (4, 4)] {
+            for k in 2..=initial {
+                let mut steps = Vec::new();
+                for _ in 0..k {
+                    steps.push(step_sx("E", None));
+                    steps.push(step_sx("G", None));
+                }
+                for _ in 0..k {
+                    steps.push(step_sx("D", None));
+                }
+                for j in 0..k {
+                    steps.push(step_sx("S", Some(j)));
+                }
+                cases.push(Case { input: mk_case(initial, max, steps), tags: vec!["queued-before-any-pickup".into(), format!("cfg:{}x{}", initial, max)] });
+            }
+        }
+        // free-running bursts of long-lived connections (wake-ups that depend on real timing)
+        for (initial, max, k) in [(1usize, 2usize, 2usize), (3, 3, 2), (2, 4, 3), (4, 4, 4)] {
+            let rounds = if ctx.thorough { 400 } else { 60 };
+            cases.push(Case {
+                input: sx::tagged("pool-storm", vec![sx::nat(initial), sx::nat(max), sx::nat(k), sx::nat(rounds)]),
+                tags: vec!["storm".into(), format!("cfg:{}x{}", initial, max)],
+            });
+        }
         if ctx.thorough {
             // a long quiet period with surplus workers idle, then another connection: it must be picked up
             // (a pool that lets idle workers go must not leave the newcomer waiting)
@@ -538,6 +612,9 @@ impl Suite for PoolSuite {
 
     fn run(&self, _ctx: &Ctx, input: &Sx) -> Sx {
         let l = input.as_list().expect("case");
+        if l[0].as_atom() == Some("pool-storm") {
+            return run_storm(l[1].as_usize().unwrap(), l[2].as_usize().unwrap(), l[3].as_usize().unwrap(), l[4].as_usize().unwrap());
+        }
         let initial = l[1].as_usize().unwrap();
         let max = l[2].as_usize().unwrap();
         let steps = &l[3].as_list().unwrap()[1..];
